@@ -25,7 +25,7 @@ def run(ctx):
     obs = collect(ctx)
     rows, fails, _ = kernel.validate_obs(ctx, "ObsC03", "ObsC03.cfg", obs, tag="snps")
     # C13 clauses are reported by C13's own check
-    ctx.failures = [f for f in ctx.failures if f["clause"] not in ("aggregate", "agg-error")]
+    ctx.failures = [f for f in ctx.failures if f["clause"] not in ("aggregate", "agg-error", "agg-cli-wiring")]
     kernel.account(ctx, rows, nontrivial)
     ctx.exhaustive = True
     ctx.assumptions = ["symbols outside the 17-symbol alphabet are C16/C18's business",
